@@ -61,7 +61,7 @@ inductive Instr
   | evWait (t : TOut)                    -- `_stop_requested.wait(t)`; acc := result
   | tsleep                               -- `time.sleep(t)`
   | mark (m : Mark)                      -- user hook of the loop task (observable)
-  | publish                              -- `_receive_signal`: the whole critical section `with cond: append; notify_all()`
+  | publish (r : Nat)                    -- `_receive_signal` of receiver r: the whole critical section `with cond: append; notify_all()`
   -- thread-local (fused)
   | ldStateIn (mask : Nat)               -- acc := `self._state in {members whose bit is set in mask}` (under `_state_cond`)
   | stState (v : Nat)                    -- `self._state = <member v>` (under `_state_cond`)
@@ -76,7 +76,9 @@ inductive Instr
   | jexp (t : Nat)                       -- jump if the deadline has passed
   | timerStop                            -- end of `wait_for`: the deadline goes out of scope
   | clrLoc (i : Nat)                     -- local `i` goes out of scope (function exit)
+  | clrCond (i : Nat)                    -- the same for a local that holds a condition loaded from `_wait_cond`
   | setTimed                             -- timed := acc   (is the `timeout` argument a number?)
+  | setRecv                              -- rcv := acc     (which receiver the next `get_next_signal` is called on)
   | call (f : Nat) | ret
   | raise (e : Ex) | reraise
   | halt
@@ -115,16 +117,20 @@ structure Th where
   expired : Bool
   timed : Bool
   isTask : Bool
+  rcv : Nat                    -- the receiver (0 / 1) whose `get_next_signal` the thread is calling: the `cond` of this call
+  cl : Nat                     -- the condition last loaded from `_wait_cond` (0 = None, c+1), held in a local
   status : Status
   deriving DecidableEq, Repr
 
 structure St where
   flag : Bool                  -- `_stop_requested`
-  wc : Bool                    -- `_wait_cond is not None`
-  qlen : Nat                   -- receiver queue length
+  wc : Nat                     -- `_wait_cond`: 0 = None, c+1 = the condition of receiver c
+  qlen : Nat                   -- queue length of receiver 0
+  qlen2 : Nat                  -- queue length of receiver 1
   lwcl : Option Nat            -- lock owners (thread index)
   lsc : Option Nat
-  lqc : Option Nat
+  lqc : Option Nat             -- lock of receiver 0's condition (lock id 2)
+  lqc2 : Option Nat            -- lock of receiver 1's condition (lock id 3)
   fin : Nat                    -- how often `loop_finalize` ran
   tstate : Nat                 -- `_TaskThread._state` (index of the member of `_TaskThread.State`)
   wq : List Nat                -- not yet notified waiters of the conditions, oldest first; entry = lock id * 16 + thread
@@ -146,7 +152,7 @@ inductive Lbl
   | evCheck | evPark | evWake (bySet : Bool)
   | slPark | slWake
   | mark (m : Mark)
-  | publish
+  | publish (r : Nat)
   | crash
   deriving DecidableEq, Repr
 
@@ -167,7 +173,7 @@ def setLoc (locs i : Nat) (b : Bool) : Nat :=
 
 def Instr.isVisible : Instr → Bool
   | .lock _ | .unlock _ | .setFlag | .ldFlag | .ldWc | .stWc _ | .condWait _ _ | .notifyAll _ | .notify _ _
-  | .evWait _ | .tsleep | .mark _ | .publish => true
+  | .evWait _ | .tsleep | .mark _ | .publish _ => true
   | _ => false
 
 /-! ## exceptions -/
@@ -198,6 +204,9 @@ def Th.raise (funcs : List Func) (t : Th) (e : Ex) : Th :=
 
 def Th.crash (t : Th) : Th := { t with status := .crashed }
 
+def St.qlenOf (s : St) (r : Nat) : Nat := if r = 0 then s.qlen else s.qlen2
+def St.setQlen (s : St) (r : Nat) (n : Nat) : St := if r = 0 then { s with qlen := n } else { s with qlen2 := n }
+
 /-! ## thread-local steps (fused into the preceding interleaving step) -/
 
 /-- one thread-local instruction; `none` when the thread is at an interleaving point (or not running) -/
@@ -211,9 +220,9 @@ def silent1 (sys : Sys) (s : St) (t : Th) : Option (List (St × Th)) :=
       match i with
       | .ldStateIn m => some [(s, { nx with acc := (m >>> s.tstate) % 2 == 1 })]
       | .stState v => some [({ s with tstate := v }, nx)]
-      | .ldPred => some [(s, { nx with acc := decide (0 < s.qlen) })]
-      | .push => some [({ s with qlen := if s.qlen < sys.cap then s.qlen + 1 else s.qlen }, nx)]
-      | .pop => if s.qlen = 0 then some [(s, t.crash)] else some [({ s with qlen := s.qlen - 1 }, nx)]
+      | .ldPred => some [(s, { nx with acc := decide (0 < s.qlenOf t.rcv) })]
+      | .push => some [(s.setQlen t.rcv (if s.qlenOf t.rcv < sys.cap then s.qlenOf t.rcv + 1 else s.qlenOf t.rcv), nx)]
+      | .pop => if s.qlenOf t.rcv = 0 then some [(s, t.crash)] else some [(s.setQlen t.rcv (s.qlenOf t.rcv - 1), nx)]
       | .ldLoc k => some [(s, { nx with acc := getLoc t.locs k })]
       | .stLoc k => some [(s, { nx with locs := setLoc t.locs k t.acc })]
       | .ldConst b => some [(s, { nx with acc := b })]
@@ -228,7 +237,9 @@ def silent1 (sys : Sys) (s : St) (t : Th) : Option (List (St × Th)) :=
       | .jexp k => some [(s, if t.expired then { t with pc := k } else nx)]
       | .timerStop => some [(s, { nx with expired := false })]
       | .clrLoc k => some [(s, { nx with locs := setLoc t.locs k false })]
+      | .clrCond k => some [(s, { nx with locs := setLoc t.locs k false, cl := 0 })]
       | .setTimed => some [(s, { nx with timed := t.acc })]
+      | .setRecv => some [(s, { nx with rcv := t.acc.toNat })]
       | .call f => some [(s, { t with fn := f, pc := 0, stack := (t.fn, t.pc) :: t.stack })]
       | .ret =>
         match t.stack with
@@ -252,26 +263,28 @@ def runSilent (sys : Sys) : Nat → List (St × Th) → List (St × Th) → List
     | none => runSilent sys f work ((s, t) :: acc)
     | some rs => runSilent sys f (rs ++ work) acc
 
-def silentFuel : Nat := 48
+def silentFuel : Nat := 600
 
 /-! ## operations on shared objects -/
 
 def lockId (t : Th) : Ref → Option Nat
   | .wcl => some 0
   | .sc => some 1
-  | .cond => some 2
-  | .viaLoc i => if getLoc t.locs i then some 2 else none
+  | .cond => some (2 + t.rcv)
+  | .viaLoc i => if getLoc t.locs i && t.cl != 0 then some (t.cl + 1) else none
 
 def St.owner (s : St) : Nat → Option Nat
   | 0 => s.lwcl
   | 1 => s.lsc
-  | _ => s.lqc
+  | 2 => s.lqc
+  | _ => s.lqc2
 
 def St.setOwner (s : St) (l : Nat) (o : Option Nat) : St :=
   match l with
   | 0 => { s with lwcl := o }
   | 1 => { s with lsc := o }
-  | _ => { s with lqc := o }
+  | 2 => { s with lqc := o }
+  | _ => { s with lqc2 := o }
 
 def isTimed (t : Th) : TOut → Bool
   | .never => false
@@ -330,8 +343,8 @@ def visStep (sys : Sys) (s : St) (tid : Nat) (t : Th) : List (Lbl × St × Th) :
         | some l => if s.owner l = some tid then [(.unlock l, s.setOwner l none, nx)] else [(.crash, s, t.crash)]
       | .setFlag => [(.setFlag, { s with flag := true }, nx)]
       | .ldFlag => [(.ldFlag s.flag, s, { nx with acc := s.flag })]
-      | .ldWc => [(.ldWc s.wc, s, { nx with acc := s.wc })]
-      | .stWc b => [(.stWc b, { s with wc := b }, nx)]
+      | .ldWc => [(.ldWc (s.wc != 0), s, { nx with acc := s.wc != 0, cl := s.wc })]
+      | .stWc b => [(.stWc b, { s with wc := if b then t.rcv + 1 else 0 }, nx)]
       | .notifyAll r =>
         match lockId t r with
         | none => [(.crash, s, t.crash)]
@@ -373,10 +386,10 @@ def visStep (sys : Sys) (s : St) (tid : Nat) (t : Th) : List (Lbl × St × Th) :
         | .no => [(.slPark, s, { t with park := .sleep })]
         | .sleep => [(.slWake, s, { nx with park := .no })]
         | _ => []
-      | .publish =>
+      | .publish r =>
         -- one action (DESIGN §3): a critical section under one lock that touches only state protected by that lock
-        if s.lqc = none then
-          [(.publish, { s with qlen := if s.qlen < sys.cap then s.qlen + 1 else s.qlen }.notifyAll 2, nx)]
+        if s.owner (2 + r) = none then
+          [(.publish r, (s.setQlen r (if s.qlenOf r < sys.cap then s.qlenOf r + 1 else s.qlenOf r)).notifyAll (2 + r), nx)]
         else []
       | .mark m =>
         [(.mark m, (match m with | .finalize => { s with fin := if s.fin < 2 then s.fin + 1 else s.fin } | _ => s), nx)]
@@ -455,7 +468,7 @@ def boolBeq : Bool → Bool → Bool
 def Th.beq (a b : Th) : Bool :=
   a.pc == b.pc && a.fn == b.fn && a.park.code == b.park.code && a.status.code == b.status.code &&
   boolBeq a.acc b.acc && a.locs == b.locs && stackBeq a.stack b.stack && exCode a.exc == exCode b.exc &&
-  boolBeq a.expired b.expired && boolBeq a.timed b.timed && boolBeq a.isTask b.isTask
+  boolBeq a.expired b.expired && boolBeq a.timed b.timed && boolBeq a.isTask b.isTask && a.rcv == b.rcv && a.cl == b.cl
 
 def thsBeq : List Th → List Th → Bool
   | [], [] => true
@@ -463,15 +476,15 @@ def thsBeq : List Th → List Th → Bool
   | _, _ => false
 
 def St.beq (a b : St) : Bool :=
-  boolBeq a.flag b.flag && boolBeq a.wc b.wc && a.qlen == b.qlen && optNatBeq a.lwcl b.lwcl &&
-  optNatBeq a.lsc b.lsc && optNatBeq a.lqc b.lqc && a.fin == b.fin && a.tstate == b.tstate && natListBeq a.wq b.wq && thsBeq a.ths b.ths
+  boolBeq a.flag b.flag && a.wc == b.wc && a.qlen == b.qlen && a.qlen2 == b.qlen2 && optNatBeq a.lwcl b.lwcl &&
+  optNatBeq a.lsc b.lsc && optNatBeq a.lqc b.lqc && optNatBeq a.lqc2 b.lqc2 && a.fin == b.fin && a.tstate == b.tstate && natListBeq a.wq b.wq && thsBeq a.ths b.ths
 
 def Th.key (t : Th) : Nat :=
-  ((((t.pc * 16 + t.fn) * 16 + t.park.code) * 8 + t.status.code) * 2 + t.acc.toNat) * 64 + t.locs % 64
+  (((((t.pc * 32 + t.fn) * 16 + t.park.code) * 8 + t.status.code) * 2 + t.acc.toNat) * 64 + t.locs % 64) * 8 + t.rcv * 4 + t.cl
 
 def St.key (s : St) : Nat :=
-  s.ths.foldl (fun k t => k * 1048576 + t.key)
-    (((s.wq.foldl (fun k w => k * 64 + w + 1) 0) * 8 + s.tstate) * 16 + s.qlen * 4 + s.flag.toNat * 2 + s.wc.toNat)
+  s.ths.foldl (fun k t => k * 16777216 + t.key)
+    ((((s.wq.foldl (fun k w => k * 64 + w + 1) 0) * 8 + s.tstate) * 16 + s.qlen * 4 + s.qlen2) * 8 + s.flag.toNat * 4 + s.wc)
 
 abbrev Buckets := List (List (Nat × St))
 
@@ -547,6 +560,19 @@ def lostWakeup (sys : Sys) (s : St) : Bool :=
   | some t => stopperDone sys s && s.flag && t.isParked && !t.wakePending s
   | none => false
 
+/-- is the thread inside `_TaskThread.wait_for_condition` (function 1 of the generated table)? -/
+def Th.inWaitFn (t : Th) : Bool := t.fn == 1 || t.stack.any fun f => f.1 == 1
+
+/-- **registration discipline** of `wait_for_condition`: every wait registers *its own* condition — whenever the task is
+    parked on the condition of receiver c, `_wait_cond` holds exactly that condition — and unregisters it on every exit
+    path — whenever the task thread is outside `wait_for_condition`, `_wait_cond` is None. -/
+def registrationDiscipline (s : St) : Bool :=
+  match taskTh s with
+  | some t =>
+    (match t.park with | .cond l _ => l < 2 || s.wc == l - 1 | _ => true) &&
+    (t.inWaitFn || s.wc == 0)
+  | none => true
+
 def anyCrashed (s : St) : Bool := s.ths.any fun t => t.status == .crashed
 
 /-- a completed stop request has set the flag -/
@@ -577,7 +603,8 @@ def loopExit (s : St) : Bool :=
 
 /-- all other threads are at rest: finished, or at the head of their loop holding no lock -/
 def envQuiet (s : St) : Bool :=
-  (s.lwcl == none || s.lwcl == some 0) && (s.lsc == none || s.lsc == some 0) && (s.lqc == none || s.lqc == some 0)
+  (s.lwcl == none || s.lwcl == some 0) && (s.lsc == none || s.lsc == some 0) && (s.lqc == none || s.lqc == some 0) &&
+  (s.lqc2 == none || s.lqc2 == some 0)
 
 /-- labels of the steps by which a timed wait ends through its time-out -/
 def isTimeoutLbl : Lbl → Bool
